@@ -1,6 +1,7 @@
 import JellyModel
 import JellyProofs.Lemmas.TableSim
 import JellyProofs.Lemmas.SerRows
+import JellyProofs.Lemmas.RowBracket
 import JellyProofs.Lemmas.StreamSim
 import JellyProofs.WireRoundTrip
 import JellyProofs.C01
@@ -143,6 +144,12 @@ structure TermEnc.Small (te : TermEnc) : Prop where
 
 theorem LookupEnc.Small.startRow {e : LookupEnc} (h : e.Small) : e.startRow.Small :=
   ⟨h.1.congr rfl rfl rfl, h.2⟩
+
+theorem LookupEnc.Small.unpin {e : LookupEnc} (h : e.Small) : e.unpin.Small :=
+  ⟨h.1.congr rfl rfl rfl, h.2⟩
+
+theorem TermEnc.Small.endRow {te : TermEnc} (h : te.Small) : te.endRow.Small :=
+  ⟨h.names.unpin, h.prefixes.unpin, h.datatypes.unpin⟩
 
 theorem TermEnc.Small.startRow {te : TermEnc} (h : te.Small) : te.startRow.Small :=
   ⟨h.names.startRow, h.prefixes.startRow, h.datatypes.startRow⟩
@@ -441,19 +448,19 @@ theorem quad_row_wireWF {a b c : Term} {ws wp wo wg : Option WTerm}
   simp only [Row.wireWF, h1, h2, h3, h4, Bool.and_self, Bool.true_and, Bool.and_eq_true, decide_eq_true_eq]
   omega
 
-theorem encodeTriple_small (exc : PyErr) (st st' : EncState) (terms : List Term) (rows : List Row)
+theorem encodeTripleBody_small (exc : PyErr) (st st' : EncState) (terms : List Term) (rows : List Row)
     (hs : st.te.Small) (hd : ShallowTerms terms)
-    (h : encodeTriple exc st terms = (st', .ok rows)) :
+    (h : encodeTripleBody exc st terms = (st', .ok rows)) :
     st'.te.Small ∧ ∀ r ∈ rows, r.wireWF = true := by
   rcases terms with _ | ⟨a, _ | ⟨b, _ | ⟨c, rest⟩⟩⟩
-  · simp [encodeTriple] at h
-  · simp only [encodeTriple] at h
+  · simp [encodeTripleBody] at h
+  · simp only [encodeTripleBody] at h
     split at h <;> simp at h
-  · simp only [encodeTriple] at h
+  · simp only [encodeTripleBody] at h
     split at h
     · simp at h
     · split at h <;> simp at h
-  · simp only [encodeTriple] at h
+  · simp only [encodeTripleBody] at h
     split at h
     · simp at h
     · rename_i h1
@@ -465,7 +472,7 @@ theorem encodeTriple_small (exc : PyErr) (st st' : EncState) (terms : List Term)
         · rename_i h3
           simp only [Prod.mk.injEq, Except.ok.injEq] at h
           obtain ⟨rfl, rfl⟩ := h
-          obtain ⟨s1, r1, w1, d1⟩ := encSlot_spo_small _ _ _ _ _ _ _ hs.startRow h1
+          obtain ⟨s1, r1, w1, d1⟩ := encSlot_spo_small _ _ _ _ _ _ _ hs h1
           obtain ⟨s2, r2, w2, d2⟩ := encSlot_spo_small _ _ _ _ _ _ _ s1 h2
           obtain ⟨s3, r3, w3, d3⟩ := encSlot_spo_small _ _ _ _ _ _ _ s2 h3
           refine ⟨s3, ?_⟩
@@ -477,25 +484,33 @@ theorem encodeTriple_small (exc : PyErr) (st st' : EncState) (terms : List Term)
           · exact r3 r hr
           · exact triple_row_wireWF w1 w2 w3 d1 d2 d3 (hd a (by simp)) (hd b (by simp)) (hd c (by simp))
 
-theorem encodeQuad_small (exc : PyErr) (st st' : EncState) (terms : List Term) (rows : List Row)
+theorem encodeTriple_small (exc : PyErr) (st st' : EncState) (terms : List Term) (rows : List Row)
     (hs : st.te.Small) (hd : ShallowTerms terms)
-    (h : encodeQuad exc st terms = (st', .ok rows)) :
+    (h : encodeTriple exc st terms = (st', .ok rows)) :
+    st'.te.Small ∧ ∀ r ∈ rows, r.wireWF = true := by
+  obtain ⟨_, st1, hb, rfl⟩ := encodeTriple_ok_inv h
+  obtain ⟨a, b⟩ := encodeTripleBody_small exc _ st1 terms rows hs.startRow hd hb
+  exact ⟨a.endRow, b⟩
+
+theorem encodeQuadBody_small (exc : PyErr) (st st' : EncState) (terms : List Term) (rows : List Row)
+    (hs : st.te.Small) (hd : ShallowTerms terms)
+    (h : encodeQuadBody exc st terms = (st', .ok rows)) :
     st'.te.Small ∧ ∀ r ∈ rows, r.wireWF = true := by
   rcases terms with _ | ⟨a, _ | ⟨b, _ | ⟨c, _ | ⟨g, rest⟩⟩⟩⟩
-  · simp [encodeQuad] at h
-  · simp only [encodeQuad] at h
+  · simp [encodeQuadBody] at h
+  · simp only [encodeQuadBody] at h
     split at h <;> simp at h
-  · simp only [encodeQuad] at h
+  · simp only [encodeQuadBody] at h
     split at h
     · simp at h
     · split at h <;> simp at h
-  · simp only [encodeQuad] at h
+  · simp only [encodeQuadBody] at h
     split at h
     · simp at h
     · split at h
       · simp at h
       · split at h <;> simp at h
-  · simp only [encodeQuad] at h
+  · simp only [encodeQuadBody] at h
     split at h
     · simp at h
     · rename_i h1
@@ -510,7 +525,7 @@ theorem encodeQuad_small (exc : PyErr) (st st' : EncState) (terms : List Term) (
           · rename_i h4
             simp only [Prod.mk.injEq, Except.ok.injEq] at h
             obtain ⟨rfl, rfl⟩ := h
-            obtain ⟨s1, r1, w1, d1⟩ := encSlot_spo_small _ _ _ _ _ _ _ hs.startRow h1
+            obtain ⟨s1, r1, w1, d1⟩ := encSlot_spo_small _ _ _ _ _ _ _ hs h1
             obtain ⟨s2, r2, w2, d2⟩ := encSlot_spo_small _ _ _ _ _ _ _ s1 h2
             obtain ⟨s3, r3, w3, d3⟩ := encSlot_spo_small _ _ _ _ _ _ _ s2 h3
             obtain ⟨s4, r4, w4⟩ := encSlot_graph_small _ _ _ _ _ _ _ s3 h4
@@ -524,6 +539,14 @@ theorem encodeQuad_small (exc : PyErr) (st st' : EncState) (terms : List Term) (
             · exact r4 r hr
             · exact quad_row_wireWF w1 w2 w3 w4 d1 d2 d3 (hd a (by simp)) (hd b (by simp))
                 (hd c (by simp))
+
+theorem encodeQuad_small (exc : PyErr) (st st' : EncState) (terms : List Term) (rows : List Row)
+    (hs : st.te.Small) (hd : ShallowTerms terms)
+    (h : encodeQuad exc st terms = (st', .ok rows)) :
+    st'.te.Small ∧ ∀ r ∈ rows, r.wireWF = true := by
+  obtain ⟨_, st1, hb, rfl⟩ := encodeQuad_ok_inv h
+  obtain ⟨a, b⟩ := encodeQuadBody_small exc _ st1 terms rows hs.startRow hd hb
+  exact ⟨a.endRow, b⟩
 
 /-! ## Streams and runs -/
 
@@ -619,11 +642,16 @@ theorem Stream.graph_wf (exc : PyErr) (s : Stream) (g : Term) (ts : List (List T
     RowsWireWF (s.graph exc g ts).2.1 (s.graph exc g ts).1.flow ∧
     ((s.graph exc g ts).2.2 = none → (s.graph exc g ts).1.enc.te.Small) := by
   rw [Stream.graph_eq]
+  cases hbk : s.enc.te.broken with
+  | true => rw [TermEnc.beginRow_broken hbk]; exact ⟨.nil hs, by simp⟩
+  | false =>
+  rw [TermEnc.beginRow_ok hbk]
+  dsimp only
   rcases hg : s.enc.te.startRow.graph g with ⟨te', e | ⟨rows, w⟩⟩
   · exact ⟨.nil hs, by simp⟩
   · dsimp only
     obtain ⟨a, b, c⟩ := graph_small _ _ _ _ _ hsm.startRow hg
-    have h0 : RowsWireWF [] (({ s with enc := { s.enc with te := te' } } : Stream).pushRows
+    have h0 : RowsWireWF [] (({ s with enc := { s.enc with te := te'.endRow } } : Stream).pushRows
         (rows ++ [Row.graphStart (some w)])).flow := by
       refine .nil ?_
       intro x hx
@@ -632,7 +660,7 @@ theorem Stream.graph_wf (exc : PyErr) (s : Stream) (g : Term) (ts : List (List T
       · exact hs x hx
       · exact b x hx
       · simpa [Row.wireWF, optWfGraph] using c
-    have hk := Stream.graphTriples_wf exc _ ts [] h0 a hd
+    have hk := Stream.graphTriples_wf exc _ ts [] h0 a.endRow hd
     generalize Stream.graphTriples exc _ ts [] = x at hk ⊢
     rcases x with ⟨s2, frs, _ | e⟩
     · exact ⟨RowsWireWF.append hk.1
